@@ -16,6 +16,18 @@ add("C06", "exploration",
     "Trusts the harness's reference fingerprint (written from the property text, cross-validated by the equality counter in evidence), SHA/IO of std. Hook H1 exposes ChunkIter::from_config unchanged.",
     "DESIGN.md section 5 C06")
 
+add("C01", "exploration",
+    "runtime monitor: generated trees x generated configs backed up by the real library on an instrumented store; ls, dump, ranged reads and restore-to-disk compared with the generator's model; check(read_data) must be clean",
+    "Held on the executions observed: every read path of every generated (configuration, tree) case returned exactly the model's bytes, names, types, link targets, permission bits and mtimes. Inputs are sampled from boundary-aimed generators (chunk/pack sizes, escaping, invalid UTF-8, tree/data id collisions), not enumerated.",
+    "Trusts the harness model/generator, the in-memory exact-map store, std fs calls used for the on-disk realisation (tmp dir under /verif/work) and lstat for observation.",
+    "DESIGN.md section 5 C01")
+
+add("C07", "exploration",
+    "runtime monitor over backup histories: raw index files parsed by an independent decoder before/after each run; set equations (new = referenced - before), no re-upload, unchanged => nothing new, summary counters, referenced chunks == independent reference chunker",
+    "Held on the observed histories (3-6 backups each, edit scripts incl. byte inserts/deletes inside multi-chunk files, renames, duplicates, type changes) on generated configurations; decided from what reached storage, not from the library's own counters.",
+    "Trusts the harness's independent AES-CTR/Poly1305 + index/tree JSON parser and reference chunker. In-run duplicates (same run, index not yet reloaded) are counted but not judged, as the property states.",
+    "DESIGN.md section 5 C07")
+
 NOT_YET = "check not built yet (work in progress in this round)"
 
 def main():
